@@ -1,4 +1,6 @@
 import Bmc.Proofs.C03
+import Bmc.Proofs.GenEnc.V2Session
+import Bmc.Proofs.GenEnc.Message
 #print axioms Bmc.Proofs.C03.datagram_shape
 #print axioms Bmc.Proofs.C03.integrity_pad
 #print axioms Bmc.Proofs.C03.payload_decrypts
@@ -6,3 +8,5 @@ import Bmc.Proofs.C03
 #print axioms Bmc.Proofs.C03.iv_is_own_draw
 #print axioms Bmc.Proofs.C03.ith_datagram_uses_ith_draw
 #print axioms Bmc.Proofs.C03.wrapper_opens
+#print axioms Bmc.Proofs.GenEnc.V2Session_enc_eq
+#print axioms Bmc.Proofs.GenEnc.Message_enc_eq
